@@ -63,13 +63,17 @@ ASSUMPTIONS = [
     'upstream test (len() of the label is taken)',
     'numeric data are dyadic rationals with |x| <= 1000 (sums exact); comparison '
     'rtol 1e-9, atol 1e-12 x result scale; NaN == NaN',
+    'for CallableMetric subclasses the merge-free evaluation of one batch, new(batch) '
+    '(what __call__ uses), must report what add(batch) on a fresh accumulator reports; '
+    'for the text metrics the value returned by add() is that batch result; skipped when '
+    'the dataset holds only NaN (count 0 has no shape yet)',
     'when both paths raise the same exception type (e.g. result() of a never-fed '
     'RRegression) they agree; this is counted as `both_raise`',
     'Keras wrapper excluded (Keras not installed); AggFnNested excluded '
     '(merge_states is unimplemented upstream)',
 ]
 FAMILY_COUNTERS = ['family:' + f for f in A.EXPECTED_FAMILIES]
-REQUIRED = ['merge_checks', 'obj_api_checks', 'aggfn_api_checks', 'per_row_checks',
+REQUIRED = ['merge_checks', 'one_batch_state_checks', 'obj_api_checks', 'aggfn_api_checks', 'per_row_checks',
             'reservoir_checks', 'empty_shard_cases', 'nan_cases',
             'inventory_classes_covered'] + FAMILY_COUNTERS
 EXHAUSTIVE = {'quick': False, 'thorough': False}
@@ -146,6 +150,18 @@ def _has_nan(rows):
   return walk(rows)
 
 
+def _all_nan(rows):
+  """True when the dataset holds no number at all (shape-of-nothing cases)."""
+  def nums(x):
+    if isinstance(x, (list, tuple)):
+      for e in x:
+        yield from nums(e)
+    elif isinstance(x, float):
+      yield x
+  vals = list(nums(rows))
+  return bool(vals) and all(v != v for v in vals)
+
+
 def _lit(rows, limit=14):
   return rows if len(rows) <= limit else {'rows': len(rows), 'head': rows[:4]}
 
@@ -186,6 +202,20 @@ def check_case(ctx, case, reg):
     ctx.inconclusive_case('reference path raised: ' + repr(A.exc_info(e)), case)
     return
   ref_obs = drv.observe(ref)
+
+  # ---- the library's own merge-free evaluation of one batch ---------------------
+  if mode == 'obj' and ad.one_batch_path and not _all_nan(rows):
+    try:
+      pure = ad.one_batch_obs(rows)
+    except Exception as e:  # pylint: disable=broad-exception-caught
+      pure = None
+      ctx.observe('one_batch_path_raised', repr(A.exc_info(e)))
+    if pure is not None and ref_obs[0] == 'ok':
+      ctx.count('one_batch_state_checks')
+      d = A.compare_obs(ad, ref_obs, pure)
+      if d:
+        _violate(ctx, ad, 'add_on_fresh_differs_from_batch_state', case,
+                 dict(lit, path=ad.one_batch_path), diffs=d, rows=rows)
 
   # ---- subject: shards x batches, folded with merge ---------------------------
   def build_subject(shards):
